@@ -1026,8 +1026,12 @@ func (p *Program) computeMods() {
 				p.mods[fn] = p.declaredMods(c, fn)
 				continue
 			}
+			pureFields := p.pureFieldCalls(fn)
 			for _, b := range fn.Blocks {
 				for _, ins := range b.Instrs {
+					if len(pureFields) > 0 && isPureFieldCall(ins, pureFields) {
+						continue
+					}
 					p.instrMods(ms, ins)
 				}
 			}
@@ -1235,4 +1239,58 @@ func sortedInts2(m map[int]map[string]bool) []int {
 	}
 	sort.Ints(ks)
 	return ks
+}
+
+// pureFieldCalls: the func-valued fields x.f whose calls the function's contract declares effect free
+// ("call x.f#k pure", a listed assumption). The summary of the function honours it for every call of that
+// field, so that callers (and goroutines started with the function) see the same effect as its own proof.
+func (p *Program) pureFieldCalls(fn *ssa.Function) map[string]bool {
+	c := p.contracts[p.fnName[fn]]
+	if c == nil {
+		return nil
+	}
+	var out map[string]bool
+	for site, ccs := range c.calls {
+		for _, cc := range ccs {
+			if cc.kind != "pure" {
+				continue
+			}
+			name := site
+			if i := strings.Index(name, "#"); i >= 0 {
+				name = name[:i]
+			}
+			if i := strings.LastIndex(name, "."); i >= 0 {
+				if out == nil {
+					out = map[string]bool{}
+				}
+				out[name[i+1:]] = true
+			}
+		}
+	}
+	return out
+}
+
+func isPureFieldCall(ins ssa.Instruction, fields map[string]bool) bool {
+	var cc *ssa.CallCommon
+	switch x := ins.(type) {
+	case *ssa.Call:
+		cc = &x.Call
+	case *ssa.Defer:
+		cc = &x.Call
+	case *ssa.Go:
+		cc = &x.Call
+	}
+	if cc == nil || cc.IsInvoke() {
+		return false
+	}
+	u, ok := traceLocal(cc.Value).(*ssa.UnOp)
+	if !ok || u.Op != token.MUL {
+		return false
+	}
+	fa, ok := u.X.(*ssa.FieldAddr)
+	if !ok {
+		return false
+	}
+	st := structOf(fa.X.Type())
+	return st != nil && fields[st.Field(fa.Field).Name()]
 }
